@@ -3,7 +3,8 @@
 (* Written from the Redis command reference (INCR, GETSET, SETNX, SET, DEL, HINCRBY,      *)
 (* LPUSH, LPOP, RPOP) for keys without expiry.  A store is a record with one field per    *)
 (* modelled location: two string keys s1, s2, two fields of one hash h1f1, h1f2, one list *)
-(* l1.  Values are positive integers; 0 stands for "absent" / the nil reply.              *)
+(* l1.  Values are positive integers; 0 stands for "absent" / the nil reply, -1 for the    *)
+(* status reply OK (so that it cannot be confused with an integer reply).                 *)
 EXTENDS Integers, Sequences
 
 EmptyStore == [s1 |-> 0, s2 |-> 0, h1f1 |-> 0, h1f2 |-> 0, l1 |-> <<>>]
@@ -15,7 +16,7 @@ Apply(st, op) ==
     [] op.t = "getset"  -> [st |-> [st EXCEPT ![k] = v], res |-> st[k]]
     [] op.t = "setnx"   -> IF st[k] = 0 THEN [st |-> [st EXCEPT ![k] = v], res |-> 1]
                                         ELSE [st |-> st, res |-> 0]
-    [] op.t = "set"     -> [st |-> [st EXCEPT ![k] = v], res |-> 1]
+    [] op.t = "set"     -> [st |-> [st EXCEPT ![k] = v], res |-> -1]     \* the status reply OK
     [] op.t = "del"     -> [st |-> [st EXCEPT ![k] = 0], res |-> IF st[k] = 0 THEN 0 ELSE 1]
     [] op.t = "hincrby" -> [st |-> [st EXCEPT ![k] = @ + v], res |-> st[k] + v]
     [] op.t = "lpush"   -> [st |-> [st EXCEPT !.l1 = <<v>> \o @], res |-> Len(st.l1) + 1]
